@@ -1,2 +1,3 @@
 import CbProps.C17
 import CbProps.C05
+import CbProps.C04
